@@ -471,6 +471,7 @@ struct Run<'o> {
     out: &'o mut Out,
     bufs: &'o [(usize, Fill)],
     rt: Option<Kind>,
+    size_only: bool,
 }
 
 impl<'r, 'o> Visitor<'r> for Run<'o> {
@@ -485,6 +486,9 @@ impl<'r, 'o> Visitor<'r> for Run<'o> {
             None => "panic".to_string(),
         };
         out.kv("", "getpad", &getpad);
+        if self.size_only {
+            return;
+        }
 
         write_keys(out, self.bufs, |buf| t.write_into(buf));
 
@@ -503,7 +507,15 @@ impl<'r, 'o> Visitor<'r> for Run<'o> {
     }
 }
 
+pub fn run_size(out: &mut Out, b: &B) {
+    run_build_opt(out, b, &[], true)
+}
+
 pub fn run_build(out: &mut Out, b: &B, bufs: &[(usize, Fill)]) {
+    run_build_opt(out, b, bufs, false)
+}
+
+fn run_build_opt(out: &mut Out, b: &B, bufs: &[(usize, Fill)], size_only: bool) {
     match b {
         // not `RtcpPacketWriter`s: only the inherent `write_into` is public
         B::Chunk(ch) => {
@@ -528,6 +540,7 @@ pub fn run_build(out: &mut Out, b: &B, bufs: &[(usize, Fill)]) {
                     out,
                     bufs,
                     rt: b.rt_kind(),
+                    size_only,
                 },
             );
         }
